@@ -44,6 +44,7 @@ enum Api
     RFFT_PAD5 = 16,
     FFT_PAD5 = 4,
     CZT_A = 5,
+    FFT_TINY = 6,
     XCORR = 20,
     HILBERT = 21,
     FFTFILT = 22,
@@ -68,6 +69,7 @@ static const char* api_name(int a) {
     case RFFT_PAD5: return "rfft_pad5";
     case FFT_PAD5: return "fft_pad5";
     case CZT_A: return "czt_a";
+    case FFT_TINY: return "fft_tiny";
     case CZT: return "czt";
     }
     return "?";
@@ -124,6 +126,9 @@ static std::vector<double> do_request(int api, int n) {
     case IFFT: return flat(ifft(cinput(n)));
     case PLAN_C: { FftPlan p(n); return flat(p(cinput(n))); }
     case FFT_PAD: return flat(fft(cinput(n > 2 ? n - 2 : n), n));
+    // the same transform on data in the subnormal range: nothing an earlier call did (plans built, processor modes touched)
+    // changes how such numbers are treated
+    case FFT_TINY: { arr_cmplx x = cinput(n); for (int i = 0; i < n; ++i) { x[i] = x[i] * 1e-310; } return flat(fft(x)); }
     case RFFT: return flat(rfft(rinput(n)));
     // zero padding to the same n from inputs of different lengths (the longer one first leaves more behind, if anything is kept)
     case RFFT_PAD1: return flat(fft(rinput(std::max(1, n - 1)), n));
@@ -284,8 +289,8 @@ int main(int argc, char** argv) {
                             const int v = (int)((seqno + i) % 4);
                             api = v == 0 ? CZT_A : v == 1 ? FFT_C : v == 2 ? CZT : PLAN_C;
                         } else if (family[0] == 'C') {
-                            const int v = (int)((seqno + i) % 5);
-                            api = v == 0 ? FFT_C : v == 1 ? IFFT : v == 2 ? PLAN_C : v == 3 ? FFT_PAD : FFT_PAD5;
+                            const int v = (int)((seqno + i) % 6);
+                            api = v == 0 ? FFT_C : v == 1 ? IFFT : v == 2 ? PLAN_C : v == 3 ? FFT_PAD : v == 4 ? FFT_PAD5 : FFT_TINY;
                         } else if (family == "R") {
                             const int v = (int)((seqno + i) % 6);
                             api = v == 0 ? RFFT : v == 1 ? IRFFT : v == 2 ? PLAN_R : v == 3 ? IRFFT_HALF : v == 4 ? RFFT_PAD1 : RFFT_PAD5;
@@ -305,7 +310,7 @@ int main(int argc, char** argv) {
                       47, 48, 49, 53, 60, 63, 64, 86, 94, 100, 106, 127, 128, 129, 210}) {
             lens.push_back(n);
         }
-        const std::vector<int> apis = {FFT_C, IFFT, PLAN_C, FFT_PAD, FFT_PAD5, CZT_A, RFFT, RFFT_PAD1, RFFT_PAD5, IRFFT, PLAN_R, IRFFT_HALF, IRFFT_ODD, XCORR, HILBERT,
+        const std::vector<int> apis = {FFT_C, IFFT, PLAN_C, FFT_PAD, FFT_PAD5, CZT_A, FFT_TINY, RFFT, RFFT_PAD1, RFFT_PAD5, IRFFT, PLAN_R, IRFFT_HALF, IRFFT_ODD, XCORR, HILBERT,
                                        FFTFILT, CZT};
         long done = 0;
         while (done < budget) {
